@@ -27,10 +27,63 @@ pub broadcast axiom fn axiom_string_str_eq_obeys()
 pub assume_specification[ <String as core::convert::AsRef<str>>::as_ref ](s: &String) -> (r: &str)
     ensures r@ == s@;
 impl<Tz> DateTime<Tz> {
-    /// seconds since the epoch; the text it is rendered to is irrelevant to the properties (opaque)
+    /// whole seconds since the epoch (rounded down)
     #[verifier::external_body]
-    pub fn timestamp(&self) -> (r: i64) { unimplemented!() }
+    pub fn timestamp(&self) -> (r: i64)
+        ensures r as int == self.t as int / 1_000_000_000
+    { unimplemented!() }
 }
 /// std::sync::Arc and the replica's dependency map: carried along, never inspected by the functions under contract
 pub struct DependencyMap { pub x: u8 }
 pub use std::sync::Arc;
+/// `str::parse::<F>()` (TRUSTED: total -- it returns Err for anything it cannot read -- and a function of the characters)
+#[verifier::external_type_specification]
+#[verifier::external_body]
+pub struct ExParseIntError(core::num::ParseIntError);
+#[verifier::external_trait_specification]
+pub trait ExFromStr: Sized {
+    type ExternalTraitSpecificationFor: core::str::FromStr;
+    type Err;
+    fn from_str(s: &str) -> core::result::Result<Self, Self::Err>;
+}
+pub uninterp spec fn parse_spec<F>(s: Seq<char>) -> Option<F>;
+pub assume_specification<F: core::str::FromStr>[ str::parse::<F> ](s: &str) -> (r: core::result::Result<F, <F as core::str::FromStr>::Err>)
+    ensures match r { Ok(v) => parse_spec::<F>(s@) == Some(v), Err(_) => parse_spec::<F>(s@) is None };
+/// `Option::is_some_and`, `Result::is_ok_and`: the closure is called on the contained value, if any
+pub assume_specification<T, F: FnOnce(T) -> bool>[ Option::<T>::is_some_and ](o: Option<T>, f: F) -> (r: bool)
+    requires o matches Some(x) ==> f.requires((x,)),
+    ensures match o { Some(x) => f.ensures((x,), r), None => !r };
+pub assume_specification<T, E, F: FnOnce(T) -> bool>[ core::result::Result::<T, E>::is_ok_and ](o: core::result::Result<T, E>, f: F) -> (r: bool)
+    requires o matches Ok(x) ==> f.requires((x,)),
+    ensures match o { Ok(x) => f.ensures((x,), r), Err(_) => !r };
+// ---- chrono (TRUSTED stand-ins, A2): DateTime<Utc> is a count `t` of nanoseconds since the epoch ---------------------------------
+pub struct Duration { pub secs: i64 }
+impl Duration {
+    /// chrono::TimeDelta::days: panics only when days * 86400 seconds overflow the representable range
+    #[verifier::external_body]
+    pub fn days(days: i64) -> (r: Duration)
+        requires -100_000_000 <= days <= 100_000_000
+        ensures r.secs == days * 86400
+    { unimplemented!() }
+}
+pub const CHRONO_MIN_SECS: i64 = -8334601228800;
+pub const CHRONO_MAX_SECS: i64 = 8210266876799;
+impl<Tz> vstd::std_specs::ops::SubSpecImpl<Duration> for DateTime<Tz> {
+    open spec fn obeys_sub_spec() -> bool { true }
+    /// chrono panics ("`DateTime - TimeDelta` overflowed") outside its range
+    open spec fn sub_req(self, d: Duration) -> bool { self.t - d.secs * 1_000_000_000 >= CHRONO_MIN_SECS * 1_000_000_000 && self.t - d.secs * 1_000_000_000 <= CHRONO_MAX_SECS * 1_000_000_000 }
+    open spec fn sub_spec(self, d: Duration) -> DateTime<Tz> { DateTime { t: (self.t - d.secs * 1_000_000_000) as i128, tz: self.tz } }
+}
+impl<Tz> core::ops::Sub<Duration> for DateTime<Tz> {
+    type Output = DateTime<Tz>;
+    #[verifier::external_body]
+    fn sub(self, d: Duration) -> (r: DateTime<Tz>) { unimplemented!() }
+}
+impl DateTime<Utc> {
+    /// chrono::DateTime::from_timestamp: Some exactly for seconds within chrono's range (the bounds Kani checks on the real crate
+    /// for src/task/time.rs), with the sub-second part as given
+    #[verifier::external_body]
+    pub fn from_timestamp(secs: i64, nsecs: u32) -> (r: Option<DateTime<Utc>>)
+        ensures nsecs == 0 ==> ((r is Some) == (CHRONO_MIN_SECS <= secs <= CHRONO_MAX_SECS)) && (r matches Some(d) ==> d.t == secs * 1_000_000_000),
+    { unimplemented!() }
+}
